@@ -127,7 +127,7 @@ class C08(Check):
     level_text = ('Every position of each generated stack is faulted once per run (fault_enumeration over positions); behaviours, '
                   'handlers, messages and histories are sampled by seed; each faulty request is followed by recovery probes.')
     level_note = 'Trusted: the outcome model (~60 lines, from the property text); the gateway monitor.'
-    required_probes = ('escaped-original-exception', 'render-error-fallback', 'handler-replaced-error', 'recovered',
+    required_probes = ('other-application-in-process', 'escaped-original-exception', 'render-error-fallback', 'handler-replaced-error', 'recovered',
                        'nonbreaking-http', 'huge-message')
 
     def gen_config(self, rng):
@@ -173,6 +173,9 @@ class C08(Check):
             if rng.random() < 0.3:
                 ops.append({'method': rng.choice(['GET', 'DELETE', 'PUT']), 'path': rng.choice(['/nope', '/only-post', '/x/y', '/item', '/item']),
                             'accept': rng.choice(ACCEPTS), 'faults': {}})
+        # something happens to ANOTHER application of the same process (default handler, dev server with debugger)
+        if rng.random() < 0.5:
+            ops.insert(rng.randint(0, len(ops)), {'other_app': rng.choice(['serve-debugger', 'serve-plain', 'construct-debug', 'reraise-handler'])})
         for _ in range(2 if tier == 'quick' else 4):
             two = frng.sample(positions, min(2, len(positions)))
             ops.append(req(dict((p, self.gen_fault(frng, p in ('EP', 'RN', 'EP2'))) for p in two if p != 'EP2')))
@@ -220,6 +223,16 @@ class C08(Check):
         baseline = snapshot(-1)
         res.ev('baseline', canon(baseline))
         for step, op in enumerate(plan['ops']):
+            if 'other_app' in op:
+                self.other_app(op['other_app'], res)
+                res.ev(step, 'other_app', op['other_app'])
+                snap = snapshot(2000 + step)
+                if snap != baseline:
+                    res.violate(K + 'influenced-by-other-application:%s' % op['other_app'],
+                                'step %d: after another application was %s, the healthy probes answer %s, before %s'
+                                % (step, op['other_app'], snap, baseline), step)
+                    break
+                continue
             exp = expected(cfg, op)
             ex = self.one(app, cfg, op, step, res, 'req')
             trace = RT.trace.get(step, [])
@@ -285,6 +298,31 @@ class C08(Check):
         return res
 
     @staticmethod
+    def other_app(kind, res):
+        """Another Application lives (and is configured) in the same process."""
+        import sys
+        res.fire('other_app:' + kind)
+        res.probe('other-application-in-process')
+
+        def hello():
+            from clastic import Response
+            return Response('other')
+        argv = sys.argv
+        sys.argv = ['app.py']
+        try:
+            if kind == 'serve-debugger':
+                Application([('/', hello)]).serve(use_debugger=True, use_reloader=False, use_meta=False, use_static=False,
+                                                  _jk_just_testing=True)
+            elif kind == 'serve-plain':
+                Application([('/', hello)]).serve(use_debugger=False, use_reloader=False, _jk_just_testing=True)
+            elif kind == 'construct-debug':
+                Application([('/', hello)], debug=True)
+            else:
+                Application([('/', hello)], error_handler=ErrorHandler(reraise_uncaught=True))
+        finally:
+            sys.argv = argv
+
+    @staticmethod
     def where(op, fired):
         if not fired:
             return 'nofault'
@@ -297,7 +335,7 @@ class C08(Check):
 
     def simplify(self, plan):
         for i, op in enumerate(plan['ops']):
-            for n, f in op['faults'].items():
+            for n, f in op.get('faults', {}).items():
                 if f.get('msg') not in (None, 'plain'):
                     c = dict(plan)
                     c['ops'] = [dict(o) for o in plan['ops']]
